@@ -384,35 +384,31 @@ func (r *Run) entryLocks(fn *Func) lockset {
 	if r.entryMemo == nil {
 		r.entryMemo = map[*Func]lockset{}
 		r.callSites = map[*Func][]callSite{}
+		r.litSites = map[*Func][]callSite{}
 		d := r.Deep()
 		if d != nil {
 			funcs := append(append([]*Func{}, r.P.All...), r.P.Ext...)
-			for _, caller := range funcs {
-				var cpaths []Path
-				if !hasLockOps(caller) && len(r.E.Paths(caller)) > 64 {
-					cpaths = []Path{*r.flatPath(caller)}
-				} else {
-					cpaths = r.Paths(caller)
+			// literals are callers of their own only when they are handed to an iterator helper (see
+			// callsParamOnly): those are found while their outer functions are walked and are walked next
+			done := map[*Func]bool{}
+			for round := 0; round < 4 && len(funcs) > 0; round++ {
+				pending := funcs
+				funcs = nil
+				for _, caller := range pending {
+					if done[caller] {
+						continue
+					}
+					done[caller] = true
+					r.collectCallSites(d, caller)
 				}
-				for pi, path := range cpaths {
-					r.at(&path)
-					var held []lockset
-					for i, ev := range path.Events {
-						if ev.Kind != EvCall || ev.Call == nil {
-							continue
-						}
-						known, _ := d.Callees(r.P, ev.Call)
-						if len(known) == 0 {
-							continue
-						}
-						if held == nil {
-							held = r.locksAlong(&cpaths[pi], lockset{})
-						}
-						for _, g := range known {
-							r.callSites[g] = append(r.callSites[g], callSite{caller: caller, held: held[i]})
-						}
+				var lits []*Func
+				for lf := range r.litSites {
+					if !done[lf] {
+						lits = append(lits, lf)
 					}
 				}
+				sort.Slice(lits, func(i, j int) bool { return lits[i].Name < lits[j].Name })
+				funcs = lits
 			}
 		}
 	}
@@ -421,13 +417,22 @@ func (r *Run) entryLocks(fn *Func) lockset {
 	}
 	r.entryMemo[fn] = lockset{} // recursion guard: assume nothing
 	sites := r.callSites[fn]
-	if len(sites) == 0 || fn.Obj == nil {
+	if fn.Lit != nil {
+		// a literal runs only inside the calls it is handed to (see callsParamOnly); the places where such a
+		// function calls its parameter add nothing
+		sites = r.litSites[fn]
+	}
+	if len(sites) == 0 {
 		return lockset{}
 	}
 	var acc lockset
 	for _, s := range sites {
 		cur := s.held.clone()
-		for k, v := range r.entryLocks(s.caller.root()) {
+		from := s.caller.root()
+		if s.caller.Lit != nil && len(r.litSites[s.caller]) > 0 {
+			from = s.caller // a literal that runs inside a call (see callsParamOnly): its own entry locks
+		}
+		for k, v := range r.entryLocks(from) {
 			if cur[k] != "W" {
 				cur[k] = v
 			}
@@ -450,6 +455,91 @@ func (r *Run) entryLocks(fn *Func) lockset {
 	}
 	r.entryMemo[fn] = acc
 	return acc
+}
+
+// callsParamOnly: g uses its k-th parameter (a function) only by calling it, has no go / defer statement and
+// no function literal: whatever is handed in runs during the call to g, on the caller's goroutine.
+func callsParamOnly(g *Func, k int) bool {
+	if g == nil || g.Body == nil || g.Type == nil || g.Type.Params == nil {
+		return false
+	}
+	var param types.Object
+	idx := 0
+	for _, f := range g.Type.Params.List {
+		for _, nm := range f.Names {
+			if idx == k {
+				param = g.Info().Defs[nm]
+			}
+			idx++
+		}
+	}
+	if param == nil {
+		return false
+	}
+	if _, isFunc := param.Type().Underlying().(*types.Signature); !isFunc {
+		return false
+	}
+	ok := true
+	calledPos := map[token.Pos]bool{}
+	ast.Inspect(g.Body, func(n ast.Node) bool {
+		switch v := n.(type) {
+		case *ast.GoStmt, *ast.DeferStmt, *ast.FuncLit:
+			ok = false
+		case *ast.CallExpr:
+			if id, isID := ast.Unparen(v.Fun).(*ast.Ident); isID && g.Info().Uses[id] == param {
+				calledPos[id.Pos()] = true
+			}
+		}
+		return ok
+	})
+	if !ok {
+		return false
+	}
+	ast.Inspect(g.Body, func(n ast.Node) bool {
+		if id, isID := n.(*ast.Ident); isID && g.Info().Uses[id] == param && !calledPos[id.Pos()] {
+			ok = false
+		}
+		return ok
+	})
+	return ok
+}
+
+// collectCallSites records, for every call on the paths of caller, the locks held there.
+func (r *Run) collectCallSites(d *Deep, caller *Func) {
+	var cpaths []Path
+	if !hasLockOps(caller) && len(r.E.Paths(caller)) > 64 {
+		cpaths = []Path{*r.flatPath(caller)}
+	} else {
+		cpaths = r.Paths(caller)
+	}
+	for pi, path := range cpaths {
+		r.at(&path)
+		var held []lockset
+		for i, ev := range path.Events {
+			if ev.Kind != EvCall || ev.Call == nil {
+				continue
+			}
+			known, _ := d.Callees(r.P, ev.Call)
+			if len(known) == 0 {
+				continue
+			}
+			if held == nil {
+				held = r.locksAlong(&cpaths[pi], lockset{})
+			}
+			for _, g := range known {
+				r.callSites[g] = append(r.callSites[g], callSite{caller: caller, held: held[i]})
+				// a literal handed to a function that only calls it, synchronously (an iterator helper:
+				// span.each(func(i uint){…})), runs under the locks held at this call
+				for k, a := range ev.Call.Args {
+					if lit, isLit := ast.Unparen(a).(*ast.FuncLit); isLit {
+						if lf := r.P.Lits[lit]; lf != nil && callsParamOnly(g, k) {
+							r.litSites[lf] = append(r.litSites[lf], callSite{caller: caller, held: held[i]})
+						}
+					}
+				}
+			}
+		}
+	}
 }
 
 type callSite struct {
